@@ -188,4 +188,20 @@ theorem Hist.refSendResponse_exact {s : Streams} {w : Writer} {g : Ghost} (h : H
     · rw [closed_sendOpen _ eos hc] at hr; cases hr
   · exact hnc
 
+theorem Hist.refSendInformationalHeaders_exact {s : Streams} {w : Writer} {g : Ghost} (h : Hist s w g) (hw : g.weird = false)
+    (k : Nat) (f : List Hpack.Field) (u : Unit) (hr : (s.refSendInformationalHeaders k f).2 = .ok u) :
+    ∃ g', Hist (s.refSendInformationalHeaders k f).1 w g' ∧ g'.emi = g.emi ∧ (∀ j, j ≠ k → g'.acc j = g.acc j) ∧
+      (g'.acc k = g.acc k ++ [.headers false f] ∨ g'.acc k = g.acc k) := by
+  refine h.once hw k (.headers false f) rfl ?_ ((refSendInformationalHeaders_accR s k f).ok hr)
+  rcases closed_cases s k with hc | hnc
+  · exfalso
+    have e : (s.refSendInformationalHeaders k f).2 = (s.sendInterimInformationalHeaders k f).2 := by
+      unfold Streams.refSendInformationalHeaders; rw [transition_snd]
+    rw [e] at hr
+    unfold Streams.sendInterimInformationalHeaders at hr
+    split at hr
+    · cases hr
+    · simp only [closed_sendClosed _ hc, Bool.or_true, if_true] at hr; cases hr
+  · exact hnc
+
 end H2V.Lemmas.ConnFidP
